@@ -89,13 +89,35 @@ def run_traced(mc, nsteps: int, on_step=None, changes=None) -> list:
 FIELDS = ("history", "arrays", "cell", "labels", "N", "last_e", "constraints", "pbc")
 
 
+def _same_array(x, y) -> bool:
+    """[dtype, shape, hex] records: integers and shapes exactly, floating point within rounding.  The restart file cannot
+    carry the calculator's cache, and ASE calculators keep results cached for a configuration one unit in the last place
+    away (1e-15 comparison tolerance): the uninterrupted run may integrate from such cached forces where the resumed one
+    evaluates afresh - differences of 1e-16, not of the size of a move (same cause as correction 18)."""
+    if x == y:
+        return True
+    if x is None or y is None or x[0] != y[0] or x[1] != y[1]:
+        return False
+    dt = np.dtype(x[0])
+    if dt.kind != "f":
+        return False
+    u = np.frombuffer(bytes.fromhex(x[2]), dtype=dt)
+    v = np.frombuffer(bytes.fromhex(y[2]), dtype=dt)
+    return bool(np.allclose(u, v, rtol=0, atol=1e-9 * max(1.0, float(np.max(np.abs(u), initial=0.0))), equal_nan=True))
+
+
 def first_diff(a: dict, b: dict) -> str | None:
     for f in FIELDS:
         if a.get(f) != b.get(f):
             if f == "arrays":
-                for k in sorted(set(a["arrays"]) | set(b["arrays"])):
-                    if a["arrays"].get(k) != b["arrays"].get(k):
-                        return f"arrays:{k}"
+                bad = [k for k in sorted(set(a["arrays"]) | set(b["arrays"]))
+                       if not _same_array(a["arrays"].get(k), b["arrays"].get(k))]
+                if bad:
+                    return f"arrays:{bad[0]}"
+                continue
+            if f == "cell":
+                if _same_array(["float64", [9], a["cell"]], ["float64", [9], b["cell"]]):
+                    continue
             if f == "last_e":
                 x, y = float(a["last_e"]), float(b["last_e"])
                 if abs(x - y) <= 1e-10 * max(1.0, abs(x), abs(y)):
